@@ -607,7 +607,11 @@ func c17RunCase(t *testing.T, k c17Knobs, seed int64) (obs c17Obs) {
 	for i := range nodes {
 		for _, s := range psExit[i] {
 			if s > barrier {
-				viol("poststop-after-stop-returned", map[string]any{"actor": i, "poststop_exit_seq": s, "barrier_seq": barrier})
+				sig := "poststop-after-stop-returned"
+				if stopTargeted[i].Load() {
+					sig += ":actor-stopping-on-its-own"
+				}
+				viol(sig, map[string]any{"actor": i, "targeted_by_stop_traffic": stopTargeted[i].Load(), "poststop_exit_seq": s, "barrier_seq": barrier})
 				break
 			}
 		}
